@@ -610,7 +610,28 @@ func (w *vfC17World) drawLoc(t *rapid.T, tgt, role, fam, label string) (loc vfC1
 
 	switch fam {
 	case "abs":
-		// Nothing more.
+		// A file name that, percent-decoded, would be a way out of a directory
+		// the patterns allow into a file they do not: the name is a name, no
+		// file of that name exists, and the file it "decodes to" is not to be
+		// touched.
+		if strings.HasPrefix(tgt, w.root+"/") && len(w.patterns) > 0 && !w.allowed(tgt) && rapid.IntRange(0, 3).Draw(t, label+"_percent_encoded") == 0 {
+			for _, d := range vfC17Dirs {
+				rel, rerr := filepath.Rel(w.root+"/"+d, tgt)
+				if rerr != nil {
+					continue
+				}
+				enc := strings.ReplaceAll(rel, "/", rapid.SampledFrom([]string{"%2F", "%2f"}).Draw(t, label+"_enc_sep"))
+				if rapid.Bool().Draw(t, label+"_enc_dots") {
+					enc = strings.ReplaceAll(enc, "..", "%2E%2E")
+				}
+				cand := w.root + "/" + d + "/" + enc
+				if w.allowed(cand) {
+					loc.Raw, loc.Target, loc.Role, loc.Transforms = cand, cand, "encoded:"+role, []string{"percent_encoded"}
+
+					break
+				}
+			}
+		}
 	case "rel":
 		loc.Form = rapid.SampledFrom(vfC17RelForms).Draw(t, label+"_form")
 		switch loc.Form {
